@@ -79,6 +79,12 @@ class BuiltinConverterProvider(ConverterProvider):
                 return name
         raise RuntimeError
 
+    def _register_outer_mangled(self, namespace: BuiltinCascadeNamespace, base: str, obj: object, avoid: str) -> str:
+        name = base
+        while name == avoid or not namespace.try_add_outer_constant(name, obj):
+            name += "_"
+        return name
+
     def _produce_code(
         self,
         signature: Signature,
@@ -87,10 +93,11 @@ class BuiltinConverterProvider(ConverterProvider):
         coercer: Coercer,
     ) -> tuple[str, Mapping[str, object]]:
         builder = CodeBuilder()
-        namespace = BuiltinCascadeNamespace(occupied=signature.parameters.keys())
-        namespace.add_outer_constant("_closure_signature", signature)
-        namespace.add_outer_constant("_stub_function", stub_function)
-        namespace.add_outer_constant("_update_wrapper", update_wrapper)
+        # the closure name is a variable of the generated scope too: nothing the body refers to may share it
+        namespace = BuiltinCascadeNamespace(occupied={*signature.parameters.keys(), closure_name})
+        signature_var = self._register_outer_mangled(namespace, "_closure_signature", signature, closure_name)
+        stub_function_var = self._register_outer_mangled(namespace, "_stub_function", stub_function, closure_name)
+        update_wrapper_var = self._register_outer_mangled(namespace, "_update_wrapper", update_wrapper, closure_name)
         coercer_var = self._register_mangled(namespace, "coercer", coercer)
 
         no_types_signature = signature.replace(
@@ -106,8 +113,8 @@ class BuiltinConverterProvider(ConverterProvider):
             """,
         )
         if stub_function is not None:
-            builder += f"_update_wrapper({closure_name}, _stub_function)"
-        builder += f"{closure_name}.__signature__ = _closure_signature"
+            builder += f"{update_wrapper_var}({closure_name}, {stub_function_var})"
+        builder += f"{closure_name}.__signature__ = {signature_var}"
         builder += f"{closure_name}.__name__ = {closure_name!r}"
         return builder.string(), namespace.all_constants
 
